@@ -14,7 +14,7 @@ SPEC = {
     "PlusFilter": (2, {"checked_add", "saturating_add"}),
     "MinusFilter": (2, {"checked_sub", "saturating_sub"}),
     "TimesFilter": (2, {"checked_mul", "saturating_mul"}),
-    "DividedByFilter": (2, {"checked_div", "wrapping_div"}),
+    "DividedByFilter": (2, {"checked_div"}),  # wrapping_div would return MIN for MIN / -1
     "ModuloFilter": (2, {"checked_rem", "wrapping_rem"}),
 }
 INT_NOISE = {"to_integer", "to_float", "map", "and_then", "or_else", "ok_or_else", "scalar", "into", "from", "branch", "from_residual",
